@@ -19,6 +19,12 @@ counters only:
              operand orders; the child is stopped there, before the allocation) and at util.strict_eval (old trees,
              frontends).  Nothing stored in the P2 / P3 state spaces is larger than 4 x that bound or than the
              program text; the peak RSS of a hostile-constant family stays flat along its ladder of literals
+  cells      no statement adds more cells to the element list of an array state than lian's own bound
+             config.MAX_ARRAY_GROWTH_PER_WRITE (read from the tree under test, never above the committed ceiling of
+             16384 cells), and no element list - while it is built or in a saved state space - is longer than that
+             ceiling or than the program text: the length of a list must not follow the VALUE of an index constant.
+             Measured at util.add_to_list_with_default_set (real growth per call; the child is stopped there) and after
+             every array / slice statement handler
   crash      the run is not killed by a signal and does not die of resource exhaustion (RecursionError,
              MemoryError, OverflowError, the int->str digit limit); other exception types are functional defects
              (C03's business): recorded, not judged here
@@ -49,6 +55,7 @@ DECIDING = (
     "strict_eval_max_result_bits",
     "fold_attempts", "fold_operand_bytes", "fold_max_compute_bits", "fold_max_result_bits",
     "p3_max_const_bits", "p2_max_const_bits",
+    "array_max_gap", "array_max_len", "space_max_array_len",
     "p2_frames", "p2_methods", "stmt_transfers_p2", "call_resolutions_p2", "prep_files",
 )
 # counters that must be reached for the run to count as observed at all
@@ -58,7 +65,7 @@ FLOOR_P2 = ("p2_frames", "p2_methods", "stmt_transfers_p2")
 FLOOR_TAINT = ("taint_pops", "taint_propagations", "calls_taint")
 # fold hooks: every hostile-constant run must reach const_fold.fold_constants (when the tree has it), and the families
 # that contain small folds must reach the operator table (the place where the decision to compute is observed)
-FLOOR_FOLD = ("fold_attempts", "fold_computes", "p3_max_const_bits", "maxrss_kb")
+FLOOR_FOLD = ("fold_attempts", "fold_computes", "p3_max_const_bits", "maxrss_kb", "array_stmts")
 FOLD_COMPUTE_FAMILIES = ("hostile_orders", "js_hostile_orders", "fold_double", "fold_square", "hostile_concat", "binop_chain")
 
 # Mechanism signatures name the GROUP of the counter (correlated counters cross their envelopes together and which of
@@ -72,6 +79,7 @@ GROUPS = {
     "result_bits": ("fold_max_compute_bits", "fold_max_result_bits"),
     "stored": ("p3_max_const_bits", "p2_max_const_bits"),
     "rss": ("maxrss_kb",),
+    "cells": ("array_max_gap", "array_max_len", "space_max_array_len"),
     "sfg": ("sfg_nodes", "sfg_edges", "sfg_add_edge_calls"),
     "taint": ("taint_pops", "taint_propagations", "taint_enqueue_calls", "calls_taint"),
 }
@@ -85,12 +93,13 @@ GROWTH_MIN_VALUE = 40       # ratios of tiny counts (1, 2, 4 ...) are not eviden
 # sizes of ONE folded constant are bounded absolutely (MAX_FOLD_BITS / envelope), a cap makes them saturate: the ratio
 # test is for work, i.e. for sums
 NO_GROWTH_TEST = ("strict_eval_max_bytes", "strict_eval_max_result_bits", "fold_max_compute_bits", "fold_max_result_bits",
-                  "p3_max_const_bits", "p2_max_const_bits")
+                  "p3_max_const_bits", "p2_max_const_bits", "array_max_gap", "array_max_len", "space_max_array_len")
 # counters of the const_fold hooks share the committed envelopes of the strict_eval counters they replace (one fold
 # attempt = one former strict_eval call, operand bytes = former text bytes), with 4x extra room: on the healthy tree
 # they stay below 0.3 x the old envelope, i.e. >= 13x head-room
 ENVELOPE_ALIAS = {"fold_attempts": ("strict_eval_calls", 4.0), "fold_operand_bytes": ("strict_eval_bytes", 4.0)}
 STORED_CONSTANT_FACTOR = 4          # a B-bit integer is stored as decimal text: 2.41 x B bits of characters
+ARRAY_CELLS_CEILING = 16384         # committed ceiling: cells one statement may add to an element list / length of a list
 RSS_GROWTH_KB = 128 * 1024          # peak RSS of a hostile-constant family may not grow by more than this along its ladder
 
 ENVELOPES = {}              # replaced by the committed table at the end of this file
@@ -193,7 +202,29 @@ def fold_bound():
     return _FOLD_BOUND[0]
 
 
+_ARRAY_BOUND = []
+
+
+def array_gap_bound():
+    """Cells one write may add to an element list: config.MAX_ARRAY_GROWTH_PER_WRITE of the tree under test when it has
+    one, never above the committed ceiling ARRAY_CELLS_CEILING."""
+    if not _ARRAY_BOUND:
+        b = 0
+        try:
+            from lian.config import config as lian_config
+            b = int(getattr(lian_config, "MAX_ARRAY_GROWTH_PER_WRITE", 0) or 0)
+        except Exception:
+            b = 0
+        _ARRAY_BOUND.append(min(b + 1, ARRAY_CELLS_CEILING) if b > 0 else ARRAY_CELLS_CEILING)
+    return _ARRAY_BOUND[0]
+
+
 def envelope_limit(family, counter, n, size=0):
+    if counter == "array_max_gap":
+        return array_gap_bound()
+    if counter in ("array_max_len", "space_max_array_len"):
+        # no element list is longer than the ceiling or than the program text (a literal list has < 1 cell per byte)
+        return max(ARRAY_CELLS_CEILING, size)
     if counter in ("fold_max_compute_bits", "fold_max_result_bits"):
         return fold_bound()
     if counter in ("p3_max_const_bits", "p2_max_const_bits"):
@@ -238,8 +269,10 @@ def case_key(case):
 
 def sig(family, counter, kind, p2_only):
     group = GROUP_OF.get(counter, counter)
-    if family in gen_adv.FAMILIES and gen_adv.FAMILIES[family].hostile and group in ("values", "result_bits", "stored", "rss"):
-        family = "constant_folding"       # the hostile-constant families exist to exercise exactly this mechanism
+    if group == "cells":
+        family = "array_index"            # the length of an element list follows the VALUE of an index constant
+    elif family in gen_adv.FAMILIES and gen_adv.FAMILIES[family].hostile and group in ("values", "result_bits", "stored", "rss"):
+        family = gen_adv.FAMILIES[family].mechanism   # the hostile families exist to exercise exactly this mechanism
     return f"{family}:{group}:{kind}" + (":p2" if p2_only else "")
 
 
@@ -314,9 +347,11 @@ class Judge:
         hooks = (info or {}).get("fold_hooks", [])
         hostile = fam in gen_adv.FAMILIES and gen_adv.FAMILIES[fam].hostile
         groups = [(FLOOR_ALWAYS, True), (FLOOR_P2, p2), (FLOOR_TAINT, taint_possible),
-                  (("fold_attempts",), hostile and "fold_constants" in hooks),
+                  (("fold_attempts",), hostile and "fold_constants" in hooks
+                   and gen_adv.FAMILIES[fam].mechanism == "constant_folding"),
                   (("fold_computes",), fam in FOLD_COMPUTE_FAMILIES and "FOLD_OPERATORS" in hooks),
-                  (("p3_max_const_bits", "maxrss_kb"), True)]
+                  (("p3_max_const_bits", "maxrss_kb"), True),
+                  (("array_stmts",), hostile and gen_adv.FAMILIES[fam].mechanism == "array_index")]
         for keys, applies in groups:
             if not applies:
                 continue
@@ -324,7 +359,7 @@ class Judge:
                 self.applicable[k] = self.applicable.get(k, 0) + 1
                 if counters.get(k, 0) > 0:
                     self.nonzero[k] = self.nonzero.get(k, 0) + 1
-        if hostile:          # whatever the tree folds with, the hostile-constant runs must have been seen folding
+        if hostile and gen_adv.FAMILIES[fam].mechanism == "constant_folding":   # whatever the tree folds with, the hostile-constant runs must have been seen folding
             k = "a fold hook (fold_constants or strict_eval)"
             self.applicable[k] = self.applicable.get(k, 0) + 1
             if counters.get("fold_attempts", 0) > 0 or counters.get("strict_eval_calls", 0) > 0:
@@ -396,9 +431,12 @@ class Judge:
             if self.judge_folds(note.get("evals", []), fam, n, p2, case) and (
                     note["counter"].startswith("strict_eval_") or note["counter"].startswith("fold_max_")):
                 return
+            wit = (note.get("info") or {}).get("array_witness") if GROUP_OF.get(note["counter"]) == "cells" else None
             self.fail(fam, note["counter"], "envelope", p2,
-                      f"{fam}(n={n}, p2={p2}): {note['counter']} reached {note['value']} > envelope {note['limit']} after "
-                      f"{last.get('t')} s and was still running (analysis stopped by the monitor)", case,
+                      f"{fam}(n={n}, p2={p2}): {note['counter']} reached {note['value']} > "
+                      f"{'bound' if GROUP_OF.get(note['counter']) in ('cells', 'result_bits', 'stored') else 'envelope'} "
+                      f"{note['limit']} after {last.get('t')} s and was still running (analysis stopped by the monitor)"
+                      + (f": {wit}" if wit else ""), case,
                       {"series_tail": [{"t": s.get("t"), note["counter"]: s.get("c", {}).get(note["counter"], 0)}
                                        for s in series[-6:]]})
             return
@@ -540,7 +578,8 @@ def compact_table(table, walls):
     keys = ("gir_stmts", "p3_frames", "stmt_transfers_p3", "stmt_transfers_p2", "handler_runs", "space_adds",
             "p3_space_len", "sfg_edges", "call_paths", "taint_pops", "strict_eval_calls", "strict_eval_bytes",
             "strict_eval_max_result_bits", "fold_calls", "fold_attempts", "fold_computes", "fold_operand_bytes",
-            "fold_max_compute_bits", "fold_max_result_bits", "p3_max_const_bits", "maxrss_kb", "calls_core", "calls_taint")
+            "fold_max_compute_bits", "fold_max_result_bits", "p3_max_const_bits", "array_stmts", "array_max_gap",
+            "array_max_len", "maxrss_kb", "calls_core", "calls_taint")
     out = {}
     for (fam, p2), rows in sorted(table.items()):
         out[f"{fam}{'+p2' if p2 else ''}"] = {
@@ -1150,6 +1189,93 @@ ENVELOPES['fold_asym'] = {k: (2 * a, d) for k, (a, d) in ENVELOPES['fold_depth']
 # 15 x that envelope keeps >= 10 x head-room.
 ENVELOPES['hostile_orders'] = {k: (15 * a, d) for k, (a, d) in ENVELOPES['hostile_pow'].items()}
 ENVELOPES['js_hostile_orders'] = {k: (15 * a, d) for k, (a, d) in ENVELOPES['js_hostile_pow'].items()}
+
+
+# hostile_index / js_ / java_ (index ladders 10**n written into element lists) and empty_callees / js_ / java_ (body-less
+# callees, added after a seeded change that re-queued a callee whose frame cannot be initialised slipped through):
+# fitted with `merge` on the tree with proposed/C13-unbounded-array-index.diff applied (the unrepaired tree violates the
+# property on the index families), seeds 0-5 thorough, both --enable-p2 modes, a = 10 x the largest normalised value.
+ENVELOPES.update({
+    'empty_callees': {
+        'gir_stmts': (340, 1), 'calls_lang': (6880, 1), 'calls_basics': (2800, 1), 'calls_core': (39900, 1),
+        'calls_taint': (18500, 1), 'calls_structs': (233000, 1), 'p3_frames': (156, 1),
+        'stmt_transfers_p3': (830, 1), 'handler_runs': (750, 1), 'space_adds': (4460, 1), 'states_created': (356, 1),
+        'p3_space_len': (1780, 1), 'sfg_nodes': (1940, 1), 'sfg_edges': (2160, 1), 'sfg_add_edge_calls': (4580, 1),
+        'call_paths': (90, 1), 'call_resolutions_p3': (400, 1), 'taint_pops': (366, 1),
+        'taint_propagations': (10, 1), 'taint_enqueue_calls': (376, 1), 'strict_eval_calls': (30, 1),
+        'strict_eval_bytes': (35, 1), 'strict_eval_max_bytes': (10, 1), 'strict_eval_max_result_bits': (10, 1),
+        'fold_attempts': (186, 1), 'fold_operand_bytes': (370, 1), 'fold_max_compute_bits': (10, 1),
+        'fold_max_result_bits': (16, 1), 'p3_max_const_bits': (160, 1), 'p2_max_const_bits': (120, 1),
+        'array_max_gap': (10, 1), 'array_max_len': (10, 1), 'space_max_array_len': (10, 1), 'p2_frames': (36, 1),
+        'p2_methods': (40, 1), 'stmt_transfers_p2': (236, 1), 'call_resolutions_p2': (80, 1), 'prep_files': (16, 1),
+    },
+    'hostile_index': {
+        'gir_stmts': (430, 1), 'calls_lang': (9790, 1), 'calls_basics': (4520, 1), 'calls_core': (47800, 1),
+        'calls_taint': (34600, 1), 'calls_structs': (605000, 1), 'p3_frames': (16, 1),
+        'stmt_transfers_p3': (1540, 1), 'handler_runs': (1340, 1), 'space_adds': (9800, 1),
+        'states_created': (246, 1), 'p3_space_len': (3700, 1), 'sfg_nodes': (2960, 1), 'sfg_edges': (4060, 1),
+        'sfg_add_edge_calls': (9140, 1), 'call_paths': (10, 1), 'call_resolutions_p3': (30, 1),
+        'taint_pops': (1200, 1), 'taint_propagations': (10, 1), 'taint_enqueue_calls': (1250, 1),
+        'strict_eval_calls': (120, 1), 'strict_eval_bytes': (180, 1), 'strict_eval_max_bytes': (10, 1),
+        'strict_eval_max_result_bits': (30, 1), 'fold_attempts': (16, 1), 'fold_operand_bytes': (10, 1),
+        'fold_max_compute_bits': (10, 1), 'fold_max_result_bits': (10, 1), 'p3_max_const_bits': (240, 1),
+        'p2_max_const_bits': (240, 1), 'array_max_gap': (2500, 1), 'array_max_len': (2500, 1),
+        'space_max_array_len': (2500, 1), 'p2_frames': (20, 1), 'p2_methods': (20, 1), 'stmt_transfers_p2': (596, 1),
+        'call_resolutions_p2': (26, 1), 'prep_files': (16, 1),
+    },
+    'java_empty_callees': {
+        'gir_stmts': (220, 1), 'calls_lang': (3570, 1), 'calls_basics': (1350, 1), 'calls_core': (8030, 1),
+        'calls_taint': (3160, 1), 'calls_structs': (67500, 1), 'p3_frames': (10, 1), 'stmt_transfers_p3': (177, 1),
+        'handler_runs': (206, 1), 'space_adds': (1140, 1), 'states_created': (166, 1), 'p3_space_len': (386, 1),
+        'sfg_nodes': (330, 1), 'sfg_edges': (384, 1), 'sfg_add_edge_calls': (986, 1), 'call_paths': (20, 1),
+        'call_resolutions_p3': (76, 1), 'taint_pops': (75, 1), 'taint_propagations': (10, 1),
+        'taint_enqueue_calls': (75, 1), 'strict_eval_calls': (16, 1), 'strict_eval_bytes': (16, 1),
+        'strict_eval_max_bytes': (10, 1), 'strict_eval_max_result_bits': (10, 1), 'fold_attempts': (100, 1),
+        'fold_operand_bytes': (200, 1), 'fold_max_compute_bits': (10, 1), 'fold_max_result_bits': (16, 1),
+        'p3_max_const_bits': (160, 1), 'p2_max_const_bits': (40, 1), 'array_max_gap': (10, 1),
+        'array_max_len': (10, 1), 'space_max_array_len': (10, 1), 'p2_frames': (10, 1), 'p2_methods': (20, 1),
+        'stmt_transfers_p2': (116, 1), 'call_resolutions_p2': (26, 1), 'prep_files': (10, 1),
+    },
+    'java_hostile_index': {
+        'gir_stmts': (170, 1), 'calls_lang': (3560, 1), 'calls_basics': (1370, 1), 'calls_core': (5700, 1),
+        'calls_taint': (3720, 1), 'calls_structs': (53200, 1), 'p3_frames': (10, 1), 'stmt_transfers_p3': (96, 1),
+        'handler_runs': (206, 1), 'space_adds': (1320, 1), 'states_created': (56, 1), 'p3_space_len': (366, 1),
+        'sfg_nodes': (266, 1), 'sfg_edges': (376, 1), 'sfg_add_edge_calls': (990, 1), 'call_paths': (10, 1),
+        'call_resolutions_p3': (10, 1), 'taint_pops': (140, 1), 'taint_propagations': (10, 1),
+        'taint_enqueue_calls': (156, 1), 'strict_eval_calls': (40, 1), 'strict_eval_bytes': (60, 1),
+        'strict_eval_max_bytes': (10, 1), 'strict_eval_max_result_bits': (30, 1), 'fold_attempts': (10, 1),
+        'fold_operand_bytes': (10, 1), 'fold_max_compute_bits': (10, 1), 'fold_max_result_bits': (10, 1),
+        'p3_max_const_bits': (160, 1), 'p2_max_const_bits': (160, 1), 'array_max_gap': (2500, 1),
+        'array_max_len': (2500, 1), 'space_max_array_len': (10, 1), 'p2_frames': (10, 1), 'p2_methods': (10, 1),
+        'stmt_transfers_p2': (110, 1), 'call_resolutions_p2': (16, 1), 'prep_files': (10, 1),
+    },
+    'js_empty_callees': {
+        'gir_stmts': (256, 1), 'calls_lang': (6020, 1), 'calls_basics': (2060, 1), 'calls_core': (13400, 1),
+        'calls_taint': (8460, 1), 'calls_structs': (114000, 1), 'p3_frames': (30, 1), 'stmt_transfers_p3': (380, 1),
+        'handler_runs': (390, 1), 'space_adds': (2460, 1), 'states_created': (286, 1), 'p3_space_len': (920, 1),
+        'sfg_nodes': (860, 1), 'sfg_edges': (930, 1), 'sfg_add_edge_calls': (1930, 1), 'call_paths': (40, 1),
+        'call_resolutions_p3': (158, 1), 'taint_pops': (194, 1), 'taint_propagations': (10, 1),
+        'taint_enqueue_calls': (206, 1), 'strict_eval_calls': (16, 1), 'strict_eval_bytes': (16, 1),
+        'strict_eval_max_bytes': (10, 1), 'strict_eval_max_result_bits': (10, 1), 'fold_attempts': (160, 1),
+        'fold_operand_bytes': (320, 1), 'fold_max_compute_bits': (10, 1), 'fold_max_result_bits': (16, 1),
+        'p3_max_const_bits': (160, 1), 'p2_max_const_bits': (120, 1), 'array_max_gap': (10, 1),
+        'array_max_len': (10, 1), 'space_max_array_len': (10, 1), 'p2_frames': (20, 1), 'p2_methods': (26, 1),
+        'stmt_transfers_p2': (180, 1), 'call_resolutions_p2': (46, 1), 'prep_files': (10, 1),
+    },
+    'js_hostile_index': {
+        'gir_stmts': (280, 1), 'calls_lang': (7560, 1), 'calls_basics': (3180, 1), 'calls_core': (26000, 1),
+        'calls_taint': (20300, 1), 'calls_structs': (275000, 1), 'p3_frames': (16, 1), 'stmt_transfers_p3': (480, 1),
+        'handler_runs': (746, 1), 'space_adds': (5950, 1), 'states_created': (140, 1), 'p3_space_len': (2180, 1),
+        'sfg_nodes': (1720, 1), 'sfg_edges': (2200, 1), 'sfg_add_edge_calls': (4770, 1), 'call_paths': (10, 1),
+        'call_resolutions_p3': (20, 1), 'taint_pops': (686, 1), 'taint_propagations': (10, 1),
+        'taint_enqueue_calls': (706, 1), 'strict_eval_calls': (76, 1), 'strict_eval_bytes': (106, 1),
+        'strict_eval_max_bytes': (10, 1), 'strict_eval_max_result_bits': (30, 1), 'fold_attempts': (10, 1),
+        'fold_operand_bytes': (10, 1), 'fold_max_compute_bits': (10, 1), 'fold_max_result_bits': (10, 1),
+        'p3_max_const_bits': (120, 1), 'p2_max_const_bits': (80, 1), 'array_max_gap': (2500, 1),
+        'array_max_len': (2500, 1), 'space_max_array_len': (2500, 1), 'p2_frames': (16, 1), 'p2_methods': (16, 1),
+        'stmt_transfers_p2': (280, 1), 'call_resolutions_p2': (16, 1), 'prep_files': (10, 1),
+    },
+})
 
 
 if __name__ == "__main__":
